@@ -480,10 +480,10 @@ pub fn dispatch(op: &str, args: &[&str]) -> Option<Res> {
             }
             "u.to.ibig" => Ok(f_ibig(&IBig::from(p_ubig(arg(args, 0)?)?))),
             // ------------------------------------------------ big integer -> float
-            "u.to_f32" => Ok(f_apx32(p_ubig(arg(args, 0)?)?.to_f32())),
-            "u.to_f64" => Ok(f_apx64(p_ubig(arg(args, 0)?)?.to_f64())),
-            "i.to_f32" => Ok(f_apx32(p_ibig(arg(args, 0)?)?.to_f32())),
-            "i.to_f64" => Ok(f_apx64(p_ibig(arg(args, 0)?)?.to_f64())),
+            "u.to_f32" | "u.to_f32.asis" => Ok(f_apx32(p_ubig(arg(args, 0)?)?.to_f32())),
+            "u.to_f64" | "u.to_f64.asis" => Ok(f_apx64(p_ubig(arg(args, 0)?)?.to_f64())),
+            "i.to_f32" | "i.to_f32.asis" => Ok(f_apx32(p_ibig(arg(args, 0)?)?.to_f32())),
+            "i.to_f64" | "i.to_f64.asis" => Ok(f_apx64(p_ibig(arg(args, 0)?)?.to_f64())),
             "u.tryto_f32" => Ok(match f32::try_from(p_ubig(arg(args, 0)?)?) {
                 Ok(v) => f_f32(v),
                 Err(e) => f_err(e),
@@ -501,19 +501,19 @@ pub fn dispatch(op: &str, args: &[&str]) -> Option<Res> {
                 Err(e) => f_err(e),
             }),
             // ------------------------------------------------ float -> big integer
-            "u.from_f32" => Ok(match UBig::try_from(p_f32(arg(args, 0)?)?) {
+            "u.from_f32" | "u.from_f32.asis" => Ok(match UBig::try_from(p_f32(arg(args, 0)?)?) {
                 Ok(v) => f_ubig(&v),
                 Err(e) => f_err(e),
             }),
-            "u.from_f64" => Ok(match UBig::try_from(p_f64(arg(args, 0)?)?) {
+            "u.from_f64" | "u.from_f64.asis" => Ok(match UBig::try_from(p_f64(arg(args, 0)?)?) {
                 Ok(v) => f_ubig(&v),
                 Err(e) => f_err(e),
             }),
-            "i.from_f32" => Ok(match IBig::try_from(p_f32(arg(args, 0)?)?) {
+            "i.from_f32" | "i.from_f32.asis" => Ok(match IBig::try_from(p_f32(arg(args, 0)?)?) {
                 Ok(v) => f_ibig(&v),
                 Err(e) => f_err(e),
             }),
-            "i.from_f64" => Ok(match IBig::try_from(p_f64(arg(args, 0)?)?) {
+            "i.from_f64" | "i.from_f64.asis" => Ok(match IBig::try_from(p_f64(arg(args, 0)?)?) {
                 Ok(v) => f_ibig(&v),
                 Err(e) => f_err(e),
             }),
